@@ -203,6 +203,81 @@ class XslGen:
         return {"templates": templates, "gvars": gvars}
 
 
+def scoping_stylesheet(rng):
+    """A family aimed at variable / parameter scoping across template boundaries: a caller holds a variable or parameter named
+    like a parameter the callee declares; the callee is reached by call-template or apply-templates, with or without
+    xsl:with-param, as the only child of its parent instruction or not, inside if / choose / for-each / a literal element /
+    a variable body; the callee prints its parameters, so a value leaking in from (or lost to) the caller's frame shows."""
+    P_ = lambda *steps, **kw: path(list(steps), **kw)
+    val = lambda: lit(rng.choice(["caller", "c2", "1", ""]))
+    def show():      # the callee prints both parameters
+        return [{"i": "text", "v": cps("[")}, {"i": "value-of", "sel": var("pa")}, {"i": "text", "v": cps("|")},
+                {"i": "value-of", "sel": var("pb")}, {"i": "text", "v": cps("]")}]
+    def param(name):
+        r = rng.random()
+        if r < 0.5:
+            return {"name": name, "hasSel": True, "sel": lit("d-" + name), "body": []}
+        if r < 0.75:
+            return {"name": name, "hasSel": False, "sel": NONE, "body": []}
+        return {"name": name, "hasSel": False, "sel": NONE, "body": [{"i": "text", "v": cps("rtf-" + name)}]}
+    def with_params():
+        out = []
+        for nm in ("pa", "pb"):
+            if rng.random() < 0.35:
+                out.append({"name": nm, "hasSel": True, "sel": val(), "body": []})
+        return out
+    def call():
+        if rng.random() < 0.55:
+            return {"i": "call-template", "name": "callee", "params": with_params()}
+        return {"i": "apply-templates", "hasSel": True, "sel": P_(ch(rng.choice([T_ANY, t_name("b"), T_NODE]))), "mode": "c", "sorts": [], "params": with_params()}
+    def wrap(body):
+        r = rng.random()
+        if r < 0.2:
+            return [{"i": "if", "test": fn("true"), "body": body}]
+        if r < 0.35:
+            return [{"i": "choose", "whens": [{"test": fn("false"), "body": []}, {"test": num(1), "body": body}], "otherwise": []}]
+        if r < 0.5:
+            return [{"i": "for-each", "sel": P_(step("self", T_NODE)), "sorts": [], "body": body}]
+        if r < 0.65:
+            return [{"i": "lre", "name": cps("w"), "attrs": [], "body": body}]
+        if r < 0.75:
+            return [{"i": "for-each", "sel": P_(ch(T_ANY)), "sorts": [], "body": body}]
+        return body
+    def caller_body(declared=()):
+        pre = []
+        scope_names = list(declared)
+        for nm in rng.sample(["pa", "pb"], rng.choice([1, 1, 2])):
+            if nm not in declared and rng.random() < 0.8:
+                pre.append({"i": "variable", "name": nm, "hasSel": True, "sel": val(), "body": []})
+                scope_names.append(nm)
+        body = [call()]
+        if rng.random() < 0.4:
+            body = body + [{"i": "text", "v": cps(".")}] if rng.random() < 0.5 else [{"i": "text", "v": cps(".")}] + body
+        body = wrap(body)
+        if rng.random() < 0.3:
+            body = wrap(body)
+        post = [{"i": "value-of", "sel": var(nm)} for nm in scope_names]      # the caller's own bindings must survive the call
+        return pre + body + post
+    callee_params = [param(nm) for nm in ("pa", "pb")]
+    templates = [
+        {"rid": 1, "hasMatch": False, "match": NONE, "name": "callee", "mode": "", "hasPrio": False, "prio": {"k": "fin", "neg": False, "m": 0},
+         "params": callee_params, "body": show()},
+        {"rid": 2, "hasMatch": True, "match": P_(ch(T_NODE)), "name": "", "mode": "c", "hasPrio": False, "prio": {"k": "fin", "neg": False, "m": 0},
+         "params": [param(nm) for nm in ("pa", "pb")], "body": show()},
+        {"rid": 3, "hasMatch": True, "match": P_(ch(T_ANY)), "name": "", "mode": "", "hasPrio": False, "prio": {"k": "fin", "neg": False, "m": 0},
+         "params": [], "body": []},
+        {"rid": 4, "hasMatch": True, "match": P_(abs_=True), "name": "", "mode": "", "hasPrio": False, "prio": {"k": "fin", "neg": False, "m": 0},
+         "params": [], "body": [{"i": "lre", "name": cps("out"), "attrs": [], "body": caller_body() + [{"i": "apply-templates", "hasSel": False, "sel": NONE, "mode": "", "sorts": [], "params": with_params()}]}]},
+    ]
+    if rng.random() < 0.5:
+        templates[2]["params"] = [param("pa")]
+        templates[2]["body"] = [{"i": "lre", "name": cps("e"), "attrs": [], "body": caller_body(declared=("pa",))}]
+    else:
+        templates[2]["body"] = [{"i": "lre", "name": cps("e"), "attrs": [], "body": caller_body()}]
+    gvars = [{"name": "pb", "hasSel": True, "sel": lit("global"), "body": []}] if rng.random() < 0.3 else []
+    return {"templates": templates, "gvars": gvars}
+
+
 # ------------------------------------------------------------------------------------------ rendering
 def s(cp):
     return "".join(chr(c) for c in cp)
